@@ -6,19 +6,19 @@ import os
 import time
 
 from ..lib import cbuild, tlc
-from ..lib.common import workdir, rmworkdir, seed, log, MachineryError
+from ..lib.common import workdir, rmworkdir, seed, log, MachineryError, VERIF
 from ..lib.report import Report
 from ..drivers import simmacrodrv as drv
 
 PID = 'E01'
 
 # session kinds and their share of the generated files
-MIX = [('plain', 8), ('int', 3), ('audio', 2), ('clean', 1), ('128', 2)]
+MIX = [('plain', 7), ('int', 3), ('audio', 2), ('clean', 1), ('128', 2), ('zero', 1)]
 
 REQUIRED = ['sim', 'sim:run:start', 'sim:run:cont', 'sim:set', 'sim:clear', 'sim:halt', 'sim:execint', 'fields', 'peek',
             'ts:static:0', 'ts:static:1', 'ts:static:2', 'ts:static:3', 'ts:static:nostop', 'ts:exec', 'ts:exec:text',
             'ts:exec:nosim', 'ts:exec:execint', 'pokes', 'pushs', 'pops', 'bank', 'audio', 'audio:execint1', 'audio:execint2',
-            'kind:plain', 'kind:int', 'kind:audio', 'kind:clean', 'kind:128'] + \
+            'kind:plain', 'kind:int', 'kind:audio', 'kind:clean', 'kind:128', 'kind:zero', 'sim:first0'] + \
            ['frag:' + k for k in drv.KINDS48 + ['halt', 'audio', 'page', 'ay']]
 
 
@@ -54,7 +54,7 @@ def run(tier):
     wd = workdir('e01')
     sd = seed()
     cbuild.preload()
-    n, budget = (640, 120) if tier == 'quick' else (9600, 1500)
+    n, budget = (480, 150) if tier == 'quick' else (9600, 1500)
     t0 = time.time()
     cases, hung = drive(sd, n, wd, budget)
     log('E01: %d sessions expanded by skool2asm/skool2html in %.1fs (%d not finished)' % (len(cases), time.time() - t0, len(hung)))
@@ -63,6 +63,13 @@ def run(tier):
                       {'args': list(a[:3])})
     if not cases:
         raise MachineryError('E01: no case was produced')
+    # probes of the open findings run once their keys are registered (or on request)
+    want = [name for name, *_ in drv.PROBES
+            if os.environ.get('VERIF_E01_PROBES') == '1' or any(k.startswith('e01:probe:' + name) for k in rep.known)]
+    if want:
+        drv.prepare_cwd(os.path.join(wd, 'cwd-probe'))
+        cases += drv.probe_cases(wd, want)
+        os.chdir(VERIF)
 
     steps = 0
     drift = {}
@@ -87,7 +94,13 @@ def run(tier):
             k = int(k)
             if what == 'undefined':
                 raise MachineryError('generated session outside the specified domain (%s): %s %s' % (clause, c['key'], c['text']))
-            if op == 'tool':
+            if c['kind'] == 'probe' and op != 'tool':
+                o = c['ops'][k - 1]
+                key = 'e01:%s' % c['key']
+                desc = ('%s op %d %s: clause %s:%s differs in %s mode; asm=%s html=%s; program %s; session %s'
+                        % (c['key'], k, drv_text(c, k - 1), op, what, mode, o['asm'], o['html'],
+                           ' / '.join('%d %s' % (a, t) for a, t, b in c['prog']['ins']), c['text']))
+            elif op == 'tool':
                 key = 'e01:%s:tool:exception' % c['kind']
                 desc = '%s: %s' % (c['key'], c['exc'])
             else:
@@ -99,6 +112,8 @@ def run(tier):
 
     seen = {}
     for c in cases:
+        if c['kind'] == 'probe':
+            continue
         for t in c['classes'] + ['kind:' + c['kind']]:
             seen[t] = seen.get(t, 0) + 1
         rep.count((c['kind'], tuple(sorted(t for t in c['classes'] if not t.startswith('sim:span')))))
